@@ -3,9 +3,14 @@
 // read back for a random sample list and recorded for re-computation by TLC (DatasetTrace.tla).
 //   dataset_driver <out.ndjson> <seed> <cases>
 #include "tabledata.h"
+#include <algorithm>
+#include <map>
+#include <mutex>
 #include <nano/dataset.h>
+#include <nano/dataset/iterator.h>
 #include <nano/generator/elemwise_identity.h>
 #include <nano/generator/pairwise_product.h>
+#include <set>
 
 using namespace nano;
 
@@ -155,8 +160,12 @@ std::vector<int64_t> stored_value(const vt::column_t& c, int64_t s)
     return v;
 }
 
-indices_t random_samples(vt::Rng& rng, int64_t n)
+indices_t random_samples(vt::Rng& rng, int64_t n, bool allow_empty = false)
 {
+    if (allow_empty && rng.coin(1, 12))
+    {
+        return indices_t{}; // no sample at all: the views are empty
+    }
     const auto mode = rng.range(0, 4);
     indices_t  samples;
     if (mode == 0)
@@ -178,6 +187,75 @@ indices_t random_samples(vt::Rng& rng, int64_t n)
     }
     return samples;
 }
+
+// a feature view as (dims, values): what a callback of select_iterator_t receives is compared with the direct select() call
+struct view_t
+{
+    std::vector<int64_t> dims;
+    std::vector<double>  values;
+};
+
+template <class tmap>
+view_t copy_view(const tmap& map)
+{
+    view_t v;
+    for (const auto d : map.dims())
+    {
+        v.dims.push_back(d);
+    }
+    v.values.reserve(static_cast<size_t>(map.size()));
+    for (tensor_size_t i = 0; i < map.size(); ++i)
+    {
+        v.values.push_back(static_cast<double>(map(i)));
+    }
+    return v;
+}
+
+bool same_view(const view_t& a, const view_t& b)
+{
+    if (a.dims != b.dims || a.values.size() != b.values.size())
+    {
+        return false;
+    }
+    for (size_t i = 0; i < a.values.size(); ++i)
+    {
+        // exact equality, a missing value (NaN) only equals a missing value
+        if (!(a.values[i] == b.values[i] || (std::isnan(a.values[i]) && std::isnan(b.values[i]))))
+        {
+            return false;
+        }
+    }
+    return true;
+}
+
+// 1..maxsize distinct indices of 0..count-1 in random order
+indices_t random_subset(vt::Rng& rng, int64_t count, int64_t maxsize)
+{
+    std::vector<tensor_size_t> all;
+    for (int64_t i = 0; i < count; ++i)
+    {
+        all.push_back(i);
+    }
+    for (size_t i = all.size(); i > 1; --i)
+    {
+        std::swap(all[i - 1], all[static_cast<size_t>(rng.range(0, static_cast<int64_t>(i) - 1))]);
+    }
+    indices_t subset(rng.range(1, std::min(count, maxsize)));
+    std::copy(all.begin(), all.begin() + subset.size(), subset.begin());
+    return subset;
+}
+
+// buffers kept across the calls of one case: the views may not depend on what a buffer held before (a view of a shorter sample
+// list maps a prefix of the larger buffer left by a previous call)
+struct buffers_t
+{
+    tensor2d_t   flat;
+    tensor4d_t   targets;
+    sclass_mem_t sclass, tsclass;
+    mclass_mem_t mclass, tmclass;
+    scalar_mem_t scalar, tscalar;
+    struct_mem_t structured, tstructured;
+};
 
 void dataset_case(vt::Rng& rng, int64_t icase)
 {
@@ -203,6 +281,37 @@ void dataset_case(vt::Rng& rng, int64_t icase)
         std::swap(order[i - 1], order[static_cast<size_t>(rng.range(0, static_cast<int64_t>(i) - 1))]);
     }
     const auto ninputs = source.features();
+    // what the stack has to generate: identity generators "use the given features, if of the appropriate type" (all input features
+    // when no subset is given), the pairwise product the pairs of the given scalar features
+    std::vector<std::pair<std::string, int64_t>> expected_identity;
+    std::set<std::pair<int64_t, int64_t>>        expected_products;
+    const auto input_kind = [&](tensor_size_t i) { return kind_of(columns[source.input_column(i)].feature); };
+    const auto input_col  = [&](tensor_size_t i) { return static_cast<int64_t>(source.input_column(i)); };
+    const auto expect_identity = [&](const std::string& kind, const indices_t& subset)
+    {
+        const auto all = arange(0, ninputs);
+        for (const auto i : (subset.size() > 0 ? subset : all))
+        {
+            if (input_kind(i) == kind)
+            {
+                expected_identity.emplace_back(kind, input_col(i));
+            }
+        }
+    };
+    const auto expect_products = [&](const indices_t& subset1, const indices_t& subset2)
+    {
+        const auto all = arange(0, ninputs);
+        for (const auto i1 : (subset1.size() > 0 ? subset1 : all))
+        {
+            for (const auto i2 : (subset2.size() > 0 ? subset2 : all))
+            {
+                if (input_kind(i1) == "scalar" && input_kind(i2) == "scalar")
+                {
+                    expected_products.emplace(std::min(input_col(i1), input_col(i2)), std::max(input_col(i1), input_col(i2)));
+                }
+            }
+        }
+    };
     for (const auto g : order)
     {
         if (g <= 3 && rng.coin(1, 8))
@@ -211,36 +320,62 @@ void dataset_case(vt::Rng& rng, int64_t icase)
         }
         switch (g)
         {
-        case 0: dataset.add<sclass_identity_generator_t>(); break;
-        case 1: dataset.add<mclass_identity_generator_t>(); break;
-        case 2: dataset.add<scalar_identity_generator_t>(); break;
-        case 3: dataset.add<struct_identity_generator_t>(); break;
+        case 0: dataset.add<sclass_identity_generator_t>(); expect_identity("sclass", indices_t{}); break;
+        case 1: dataset.add<mclass_identity_generator_t>(); expect_identity("mclass", indices_t{}); break;
+        case 2: dataset.add<scalar_identity_generator_t>(); expect_identity("scalar", indices_t{}); break;
+        case 3: dataset.add<struct_identity_generator_t>(); expect_identity("struct", indices_t{}); break;
         case 4:
             if (rng.coin(1, 3))
             {
-                dataset.add<pairwise_product_generator_t>();
+                // all pairs | the pairs of the given features | the given pairs of features
+                const auto mode = ninputs > 0 ? rng.range(0, 2) : 0;
+                if (mode == 0)
+                {
+                    dataset.add<pairwise_product_generator_t>();
+                    expect_products(indices_t{}, indices_t{});
+                }
+                else if (mode == 1)
+                {
+                    const auto subset = random_subset(rng, ninputs, 6);
+                    dataset.add<pairwise_product_generator_t>(subset);
+                    expect_products(subset, subset);
+                }
+                else
+                {
+                    // TWO-LIST DOMAIN: only lists with max(features1) <= min(features2). With a feature of the first list behind one
+                    // of the second list make_pairwise (src/generator/pairwise_base.cpp:92-104) swaps the row indices of the two
+                    // mappings: wrong pairs, heap overflow for lists of different sizes (reported; e.g. {4} x {0,1,2}).
+                    const auto middle  = rng.range(0, ninputs - 1);
+                    auto       subset1 = random_subset(rng, middle + 1, 5), subset2 = random_subset(rng, ninputs - middle, 5);
+                    subset2.array() += middle;
+                    dataset.add<pairwise_product_generator_t>(subset1, subset2);
+                    expect_products(subset1, subset2);
+                }
             }
             break;
         default:
             if (rng.coin(1, 3) && ninputs > 0)
             {
-                // a generator restricted to a subset of the input features
-                indices_t subset(rng.range(1, std::min<int64_t>(ninputs, 4)));
-                auto      all = arange(0, ninputs);
-                for (tensor_size_t k = 0; k < subset.size(); ++k)
+                // a generator restricted to a subset of the input features (any order)
+                const auto subset = random_subset(rng, ninputs, 4);
+                switch (rng.range(0, 5))
                 {
-                    subset(k) = all(rng.range(0, ninputs - 1));
+                case 0: dataset.add<sclass_identity_generator_t>(subset); expect_identity("sclass", subset); break;
+                case 1: dataset.add<mclass_identity_generator_t>(subset); expect_identity("mclass", subset); break;
+                case 2: dataset.add<struct_identity_generator_t>(subset); expect_identity("struct", subset); break;
+                default: dataset.add<scalar_identity_generator_t>(subset); expect_identity("scalar", subset); break;
                 }
-                std::sort(subset.begin(), subset.end());
-                indices_t unique(static_cast<tensor_size_t>(std::unique(subset.begin(), subset.end()) - subset.begin()));
-                std::copy(subset.begin(), subset.begin() + unique.size(), unique.begin());
-                dataset.add<scalar_identity_generator_t>(unique);
             }
             break;
         }
     }
     if (dataset.features() == 0)
     {
+        if (!expected_identity.empty() || !expected_products.empty())
+        {
+            vt::put(vt::J("Reset").i("case", icase).i("n", n).raw("stored", "[]").raw("feats", "[]").raw("target", "[]").i("nfeatures", 0).i(
+                "columns", dataset.columns()).raw("col2feat", "[]").b("descOK", true).b("stackOK", false));
+        }
         return;
     }
 
@@ -277,8 +412,29 @@ void dataset_case(vt::Rng& rng, int64_t icase)
     if (!descOK)
     {
         vt::put(vt::J("Reset").i("case", icase).i("n", n).raw("stored", "[]").raw("feats", "[]").raw("target", "[]").i("nfeatures", dataset.features()).i(
-            "columns", dataset.columns()).raw("col2feat", "[]").b("descOK", false));
+            "columns", dataset.columns()).raw("col2feat", "[]").b("descOK", false).b("stackOK", true));
         return;
+    }
+    // the stack generates what its generators were asked for: the identity features of the given subsets (each once per generator),
+    // the products of the given pairs of scalar features (as a set of unordered pairs: the product is symmetric)
+    bool stackOK = true;
+    {
+        std::vector<std::pair<std::string, int64_t>> identity;
+        std::set<std::pair<int64_t, int64_t>>        products;
+        for (const auto& g : feats)
+        {
+            if (g.kind == "product")
+            {
+                products.emplace(std::min(g.src[0], g.src[1]), std::max(g.src[0], g.src[1]));
+            }
+            else
+            {
+                identity.emplace_back(g.kind, g.src[0]);
+            }
+        }
+        std::sort(identity.begin(), identity.end());
+        std::sort(expected_identity.begin(), expected_identity.end());
+        stackOK = identity == expected_identity && products == expected_products;
     }
 
     // Reset record
@@ -314,16 +470,175 @@ void dataset_case(vt::Rng& rng, int64_t icase)
             col2feat.push_back(dataset.column2feature(c));
         }
         vt::put(vt::J("Reset").i("case", icase).i("n", n).raw("stored", stored).raw("feats", fs).raw("target", tg).i("nfeatures", dataset.features()).i(
-            "columns", dataset.columns()).a("col2feat", col2feat).b("descOK", true));
+            "columns", dataset.columns()).a("col2feat", col2feat).b("descOK", true).b("stackOK", stackOK));
     }
+
+    buffers_t               kept; // see buffers_t
+    const select_iterator_t iterator(dataset);
+
+    // the views through select_iterator_t (per-thread buffers, the features of a kind distributed over the workers in chunks) are the
+    // views of the direct calls: every feature of the kind is visited exactly once with its own index and values, by a worker
+    // of the pool
+    const auto record_iterator = [&](const indices_t& samples)
+    {
+        const auto               nfeats = static_cast<size_t>(dataset.features());
+        std::vector<view_t>      direct(nfeats);
+        std::vector<std::string> kinds(nfeats);
+        for (tensor_size_t k = 0; k < dataset.features(); ++k)
+        {
+            const auto  i = static_cast<size_t>(k);
+            const auto& g = feats[i];
+            if (g.kind == "sclass")
+            {
+                sclass_mem_t buffer;
+                direct[i] = copy_view(dataset.select(samples, k, buffer));
+            }
+            else if (g.kind == "mclass")
+            {
+                mclass_mem_t buffer;
+                direct[i] = copy_view(dataset.select(samples, k, buffer));
+            }
+            else if (g.kind == "struct")
+            {
+                struct_mem_t buffer;
+                direct[i] = copy_view(dataset.select(samples, k, buffer));
+            }
+            else
+            {
+                scalar_mem_t buffer;
+                direct[i] = copy_view(dataset.select(samples, k, buffer));
+            }
+            kinds[i] = g.kind == "product" ? "scalar" : g.kind;
+        }
+        std::mutex               mutex;
+        std::vector<int64_t>     visits;
+        std::vector<std::string> via;
+        bool                     valuesOK = true, workerOK = true, indexOK = true;
+        const auto reset = [&]()
+        {
+            visits.assign(nfeats, 0);
+            via.assign(nfeats, "");
+        };
+        const auto visit = [&](const char* kind, tensor_size_t ifeature, size_t tnum, const view_t& view)
+        {
+            const std::scoped_lock lock(mutex);
+            workerOK = workerOK && tnum < dataset.concurrency();
+            if (ifeature < 0 || ifeature >= dataset.features())
+            {
+                indexOK = false;
+                return;
+            }
+            const auto i = static_cast<size_t>(ifeature);
+            visits[i] += 1;
+            via[i] = kind;
+            valuesOK = valuesOK && same_view(view, direct[i]);
+        };
+        const sclass_callback_t on_sclass = [&](tensor_size_t f, size_t tnum, sclass_cmap_t v) { visit("sclass", f, tnum, copy_view(v)); };
+        const mclass_callback_t on_mclass = [&](tensor_size_t f, size_t tnum, mclass_cmap_t v) { visit("mclass", f, tnum, copy_view(v)); };
+        const scalar_callback_t on_scalar = [&](tensor_size_t f, size_t tnum, scalar_cmap_t v) { visit("scalar", f, tnum, copy_view(v)); };
+        const struct_callback_t on_struct = [&](tensor_size_t f, size_t tnum, struct_cmap_t v) { visit("struct", f, tnum, copy_view(v)); };
+
+        // (1) all features of a kind
+        reset();
+        iterator.loop(samples, on_sclass);
+        iterator.loop(samples, on_mclass);
+        iterator.loop(samples, on_scalar);
+        iterator.loop(samples, on_struct);
+        const auto visits_all = visits;
+        const auto via_all    = via;
+
+        // (2) one given feature
+        reset();
+        for (tensor_size_t k = 0; k < dataset.features(); ++k)
+        {
+            const auto& kind = kinds[static_cast<size_t>(k)];
+            if (kind == "sclass")
+            {
+                iterator.loop(samples, k, on_sclass);
+            }
+            else if (kind == "mclass")
+            {
+                iterator.loop(samples, k, on_mclass);
+            }
+            else if (kind == "struct")
+            {
+                iterator.loop(samples, k, on_struct);
+            }
+            else
+            {
+                iterator.loop(samples, k, on_scalar);
+            }
+        }
+        const auto visits_one = visits;
+        const auto via_one    = via;
+
+        // (3) the given features of a kind (any order, with repetitions)
+        reset();
+        std::vector<int64_t> listed(nfeats, 0);
+        for (const auto* kind : {"sclass", "mclass", "scalar", "struct"})
+        {
+            std::vector<tensor_size_t> of_kind;
+            for (tensor_size_t k = 0; k < dataset.features(); ++k)
+            {
+                if (kinds[static_cast<size_t>(k)] == kind)
+                {
+                    of_kind.push_back(k);
+                }
+            }
+            if (of_kind.empty())
+            {
+                continue;
+            }
+            indices_t list(rng.range(1, static_cast<int64_t>(of_kind.size()) + 2));
+            for (auto& f : list)
+            {
+                f = rng.pick(of_kind);
+                listed[static_cast<size_t>(f)] += 1;
+            }
+            const auto skind = std::string(kind);
+            if (skind == "sclass")
+            {
+                iterator.loop(samples, list, on_sclass);
+            }
+            else if (skind == "mclass")
+            {
+                iterator.loop(samples, list, on_mclass);
+            }
+            else if (skind == "struct")
+            {
+                iterator.loop(samples, list, on_struct);
+            }
+            else
+            {
+                iterator.loop(samples, list, on_scalar);
+            }
+        }
+        std::string vias = "[", vias1 = "[";
+        for (size_t i = 0; i < nfeats; ++i)
+        {
+            vias += std::string(i ? "," : "") + "\"" + via_all[i] + "\"";
+            vias1 += std::string(i ? "," : "") + "\"" + via_one[i] + "\"";
+        }
+        vt::put(vt::J("Iter").i("threads", static_cast<int64_t>(dataset.concurrency())).i("nsamples", samples.size()).a("visits", visits_all).raw(
+            "via", vias + "]").a("visits1", visits_one).raw("via1", vias1 + "]").a("visitsN", visits).a("listedN", listed).b("valuesOK", valuesOK).b(
+            "workerOK", workerOK).b("indexOK", indexOK));
+    };
 
     const auto record_views = [&]()
     {
-        const auto samples = random_samples(rng, n);
-        tensor2d_t fbuffer;
-        const auto flat = dataset.flatten(samples, fbuffer);
+        const auto samples = random_samples(rng, n, true);
+        // either the buffers left by the previous calls (of any size) or new ones
+        const auto keep = rng.coin(2, 3);
+        auto       B    = buffers_t{};
+        if (keep)
+        {
+            std::swap(B, kept);
+        }
+        bool       shapeOK = true;
+        const auto flat    = dataset.flatten(samples, B.flat);
+        shapeOK            = shapeOK && flat.size<0>() == samples.size() && flat.size<1>() == dataset.columns();
         std::vector<std::vector<int64_t>> rows;
-        for (tensor_size_t i = 0; i < samples.size(); ++i)
+        for (tensor_size_t i = 0; shapeOK && i < samples.size(); ++i)
         {
             std::vector<int64_t> row;
             for (tensor_size_t c = 0; c < dataset.columns(); ++c)
@@ -337,20 +652,24 @@ void dataset_case(vt::Rng& rng, int64_t icase)
         {
             const auto&                       g = feats[static_cast<size_t>(k)];
             std::vector<std::vector<int64_t>> vals;
+            if (!keep)
+            {
+                B = buffers_t{};
+            }
             if (g.kind == "sclass")
             {
-                sclass_mem_t buffer;
-                const auto   v = dataset.select(samples, k, buffer);
-                for (tensor_size_t i = 0; i < samples.size(); ++i)
+                const auto v = dataset.select(samples, k, B.sclass);
+                shapeOK      = shapeOK && v.size() == samples.size();
+                for (tensor_size_t i = 0; shapeOK && i < samples.size(); ++i)
                 {
                     vals.push_back({static_cast<int64_t>(v(i))});
                 }
             }
             else if (g.kind == "mclass")
             {
-                mclass_mem_t buffer;
-                const auto   v = dataset.select(samples, k, buffer);
-                for (tensor_size_t i = 0; i < samples.size(); ++i)
+                const auto v = dataset.select(samples, k, B.mclass);
+                shapeOK      = shapeOK && v.size<0>() == samples.size() && v.size<1>() == g.classes;
+                for (tensor_size_t i = 0; shapeOK && i < samples.size(); ++i)
                 {
                     std::vector<int64_t> bits;
                     for (tensor_size_t c = 0; c < v.size<1>(); ++c)
@@ -362,9 +681,9 @@ void dataset_case(vt::Rng& rng, int64_t icase)
             }
             else if (g.kind == "struct")
             {
-                struct_mem_t buffer;
-                const auto   v = dataset.select(samples, k, buffer);
-                for (tensor_size_t i = 0; i < samples.size(); ++i)
+                const auto v = dataset.select(samples, k, B.structured);
+                shapeOK      = shapeOK && v.size<0>() == samples.size() && v.size() == samples.size() * g.width;
+                for (tensor_size_t i = 0; shapeOK && i < samples.size(); ++i)
                 {
                     std::vector<int64_t> xs;
                     const auto           t = v.tensor(i);
@@ -377,9 +696,9 @@ void dataset_case(vt::Rng& rng, int64_t icase)
             }
             else
             {
-                scalar_mem_t buffer;
-                const auto   v = dataset.select(samples, k, buffer);
-                for (tensor_size_t i = 0; i < samples.size(); ++i)
+                const auto v = dataset.select(samples, k, B.scalar);
+                shapeOK      = shapeOK && v.size() == samples.size();
+                for (tensor_size_t i = 0; shapeOK && i < samples.size(); ++i)
                 {
                     vals.push_back({lat(v(i))});
                 }
@@ -387,14 +706,16 @@ void dataset_case(vt::Rng& rng, int64_t icase)
             sel += (k ? "," : "") + json_lists(vals);
         }
         sel += "]";
-        vt::put(vt::J("Views").a("samples", std::vector<int64_t>(samples.begin(), samples.end())).aa("flat", rows).raw("sel", sel));
+        vt::put(vt::J("Views").a("samples", std::vector<int64_t>(samples.begin(), samples.end())).aa("flat", rows).raw("sel", sel).b("shapeOK", shapeOK));
 
         if (has_target && rng.coin(1, 2))
         {
-            tensor4d_t tbuffer;
-            const auto targets = dataset.targets(samples, tbuffer);
+            const auto& tf      = columns[target].feature;
+            const auto  twidth  = tf.is_sclass() || tf.is_mclass() ? static_cast<tensor_size_t>(tf.classes()) : ::nano::size(tf.dims());
+            const auto  targets = dataset.targets(samples, B.targets);
+            shapeOK             = targets.size<0>() == samples.size() && targets.size() == samples.size() * twidth;
             std::vector<std::vector<int64_t>> trows, tsel;
-            for (tensor_size_t i = 0; i < samples.size(); ++i)
+            for (tensor_size_t i = 0; shapeOK && i < samples.size(); ++i)
             {
                 std::vector<int64_t> row;
                 const auto           t = targets.tensor(i);
@@ -404,21 +725,20 @@ void dataset_case(vt::Rng& rng, int64_t icase)
                 }
                 trows.push_back(row);
             }
-            const auto& tf = columns[target].feature;
             if (tf.is_sclass())
             {
-                sclass_mem_t buffer;
-                const auto   v = dataset.select(samples, buffer);
-                for (tensor_size_t i = 0; i < samples.size(); ++i)
+                const auto v = dataset.select(samples, B.tsclass);
+                shapeOK      = shapeOK && v.size() == samples.size();
+                for (tensor_size_t i = 0; shapeOK && i < samples.size(); ++i)
                 {
                     tsel.push_back({static_cast<int64_t>(v(i))});
                 }
             }
             else if (tf.is_mclass())
             {
-                mclass_mem_t buffer;
-                const auto   v = dataset.select(samples, buffer);
-                for (tensor_size_t i = 0; i < samples.size(); ++i)
+                const auto v = dataset.select(samples, B.tmclass);
+                shapeOK      = shapeOK && v.size<0>() == samples.size() && v.size<1>() == twidth;
+                for (tensor_size_t i = 0; shapeOK && i < samples.size(); ++i)
                 {
                     std::vector<int64_t> bits;
                     for (tensor_size_t c = 0; c < v.size<1>(); ++c)
@@ -430,18 +750,18 @@ void dataset_case(vt::Rng& rng, int64_t icase)
             }
             else if (tf.is_scalar())
             {
-                scalar_mem_t buffer;
-                const auto   v = dataset.select(samples, buffer);
-                for (tensor_size_t i = 0; i < samples.size(); ++i)
+                const auto v = dataset.select(samples, B.tscalar);
+                shapeOK      = shapeOK && v.size() == samples.size();
+                for (tensor_size_t i = 0; shapeOK && i < samples.size(); ++i)
                 {
                     tsel.push_back({lat(v(i))});
                 }
             }
             else
             {
-                struct_mem_t buffer;
-                const auto   v = dataset.select(samples, buffer);
-                for (tensor_size_t i = 0; i < samples.size(); ++i)
+                const auto v = dataset.select(samples, B.tstructured);
+                shapeOK      = shapeOK && v.size<0>() == samples.size() && v.size() == samples.size() * twidth;
+                for (tensor_size_t i = 0; shapeOK && i < samples.size(); ++i)
                 {
                     std::vector<int64_t> xs;
                     const auto           t = v.tensor(i);
@@ -452,28 +772,44 @@ void dataset_case(vt::Rng& rng, int64_t icase)
                     tsel.push_back(xs);
                 }
             }
-            vt::put(vt::J("Targets").a("samples", std::vector<int64_t>(samples.begin(), samples.end())).aa("rows", trows).aa("sel", tsel));
+            vt::put(vt::J("Targets").a("samples", std::vector<int64_t>(samples.begin(), samples.end())).aa("rows", trows).aa("sel", tsel).b("shapeOK", shapeOK));
+        }
+        if (keep)
+        {
+            std::swap(B, kept);
+        }
+        if (rng.coin(1, 2))
+        {
+            record_iterator(samples);
         }
     };
 
     const auto bad_index = [&]()
     {
+        const sclass_callback_t no_sclass = [](tensor_size_t, size_t, sclass_cmap_t) {};
+        const mclass_callback_t no_mclass = [](tensor_size_t, size_t, mclass_cmap_t) {};
+        const scalar_callback_t no_scalar = [](tensor_size_t, size_t, scalar_cmap_t) {};
+        const struct_callback_t no_struct = [](tensor_size_t, size_t, struct_cmap_t) {};
+
         const auto index = rng.pick(std::vector<int64_t>{-1, n, n + 1, n + 7});
         auto       samples = random_samples(rng, n);
         samples(rng.range(0, samples.size() - 1)) = index;
-        bool threw = false;
+        bool        threw = false;
+        std::string via;
         try
         {
-            switch (rng.range(0, 2))
+            switch (rng.range(0, 5))
             {
             case 0:
             {
+                via = "flatten";
                 tensor2d_t buffer;
                 (void)dataset.flatten(samples, buffer);
                 break;
             }
             case 1:
             {
+                via = "select";
                 const auto k = rng.range(0, dataset.features() - 1);
                 const auto& g = feats[static_cast<size_t>(k)];
                 if (g.kind == "sclass")
@@ -498,17 +834,74 @@ void dataset_case(vt::Rng& rng, int64_t icase)
                 }
                 break;
             }
-            default:
+            case 2:
             {
                 if (has_target)
                 {
+                    via = "targets";
                     tensor4d_t buffer;
                     (void)dataset.targets(samples, buffer);
                 }
                 else
                 {
+                    via = "flatten";
                     tensor2d_t buffer;
                     (void)dataset.flatten(samples, buffer);
+                }
+                break;
+            }
+            case 3:
+            {
+                // the per-kind views of the target
+                if (!has_target)
+                {
+                    via = "flatten";
+                    (void)dataset.flatten(samples, kept.flat);
+                }
+                else if (const auto& tf = columns[target].feature; tf.is_sclass())
+                {
+                    via = "target-sclass";
+                    (void)dataset.select(samples, kept.tsclass);
+                }
+                else if (tf.is_mclass())
+                {
+                    via = "target-mclass";
+                    (void)dataset.select(samples, kept.tmclass);
+                }
+                else if (tf.is_scalar())
+                {
+                    via = "target-scalar";
+                    (void)dataset.select(samples, kept.tscalar);
+                }
+                else
+                {
+                    via = "target-struct";
+                    (void)dataset.select(samples, kept.tstructured);
+                }
+                break;
+            }
+            default:
+            {
+                // through the iterator: one feature | all features of the kind of a random feature (at least that one is read)
+                const auto k    = rng.range(0, dataset.features() - 1);
+                const auto kind = feats[static_cast<size_t>(k)].kind;
+                const auto one  = rng.coin();
+                via             = one ? "iterator-one" : "iterator-all";
+                if (kind == "sclass")
+                {
+                    one ? iterator.loop(samples, k, no_sclass) : iterator.loop(samples, no_sclass);
+                }
+                else if (kind == "mclass")
+                {
+                    one ? iterator.loop(samples, k, no_mclass) : iterator.loop(samples, no_mclass);
+                }
+                else if (kind == "struct")
+                {
+                    one ? iterator.loop(samples, k, no_struct) : iterator.loop(samples, no_struct);
+                }
+                else
+                {
+                    one ? iterator.loop(samples, k, no_scalar) : iterator.loop(samples, no_scalar);
                 }
                 break;
             }
@@ -518,22 +911,62 @@ void dataset_case(vt::Rng& rng, int64_t icase)
         {
             threw = true;
         }
-        vt::put(vt::J("Bad").s("what", "sample").i("index", index).b("threw", threw));
+        vt::put(vt::J("Bad").s("what", "sample").i("index", index).b("threw", threw).s("via", via));
         // feature indices
         const auto findex = rng.pick(std::vector<int64_t>{-1, dataset.features(), dataset.features() + 3});
         threw             = false;
         try
         {
             const auto ok_samples = random_samples(rng, n);
-            switch (rng.range(0, 3))
+            switch (rng.range(0, 6))
             {
-            case 0: dataset.drop(findex); break;
-            case 1: dataset.shuffle(findex); break;
-            case 2: (void)dataset.feature(findex); break;
-            default:
+            case 0: via = "drop"; dataset.drop(findex); break;
+            case 1: via = "shuffle"; dataset.shuffle(findex); break;
+            case 2: via = "feature"; (void)dataset.feature(findex); break;
+            case 3:
             {
+                via = "select";
                 scalar_mem_t buffer;
                 (void)dataset.select(ok_samples, findex, buffer);
+                break;
+            }
+            case 4: via = "shuffled"; (void)dataset.shuffled(findex, ok_samples); break;
+            case 5: via = "iterator-one"; iterator.loop(ok_samples, findex, no_scalar); break;
+            default:
+            {
+                // a list of features of one kind with an invalid index among them
+                via             = "iterator-list";
+                const auto kind = feats[static_cast<size_t>(rng.range(0, dataset.features() - 1))].kind;
+                std::vector<tensor_size_t> of_kind;
+                for (tensor_size_t k = 0; k < dataset.features(); ++k)
+                {
+                    if (feats[static_cast<size_t>(k)].kind == kind)
+                    {
+                        of_kind.push_back(k);
+                    }
+                }
+                indices_t list(rng.range(1, 4));
+                for (auto& f : list)
+                {
+                    f = rng.pick(of_kind);
+                }
+                list(rng.range(0, list.size() - 1)) = findex;
+                if (kind == "sclass")
+                {
+                    iterator.loop(ok_samples, list, no_sclass);
+                }
+                else if (kind == "mclass")
+                {
+                    iterator.loop(ok_samples, list, no_mclass);
+                }
+                else if (kind == "struct")
+                {
+                    iterator.loop(ok_samples, list, no_struct);
+                }
+                else
+                {
+                    iterator.loop(ok_samples, list, no_scalar);
+                }
                 break;
             }
             }
@@ -542,7 +975,7 @@ void dataset_case(vt::Rng& rng, int64_t icase)
         {
             threw = true;
         }
-        vt::put(vt::J("Bad").s("what", "feature").i("index", findex).b("threw", threw));
+        vt::put(vt::J("Bad").s("what", "feature").i("index", findex).b("threw", threw).s("via", via));
     };
 
     record_views();
@@ -561,7 +994,7 @@ void dataset_case(vt::Rng& rng, int64_t icase)
             dataset.shuffle(f);
             const auto perm = dataset.shuffled(f, arange(0, n));
             vt::put(vt::J("Op").s("op", "shuffle").i("f", f).a("perm", std::vector<int64_t>(perm.begin(), perm.end())));
-            const auto samples = random_samples(rng, n);
+            const auto samples = random_samples(rng, n, true);
             const auto out     = dataset.shuffled(f, samples);
             vt::put(vt::J("Shuffled").i("f", f).a("samples", std::vector<int64_t>(samples.begin(), samples.end())).a(
                 "out", std::vector<int64_t>(out.begin(), out.end())));
@@ -608,6 +1041,6 @@ int main(int argc, char* argv[])
         }
     }
     vt::put(vt::J("Reset").i("case", -1).i("n", 0).raw("stored", "[]").raw("feats", "[]").raw("target", "[]").i("nfeatures", 0).i("columns", 0).raw(
-        "col2feat", "[]").b("descOK", true));
+        "col2feat", "[]").b("descOK", true).b("stackOK", true));
     return 0;
 }
